@@ -2,7 +2,7 @@
 From Coq Require Import String Ascii List Bool PArith.
 Import ListNotations.
 Require Import Verif.Chroot.Path Verif.Chroot.PathProps Verif.Chroot.Bytes Verif.Chroot.BytesProps
-               Verif.Chroot.Confine Verif.Gen.ChrootOps.
+               Verif.Chroot.NestedProps Verif.Chroot.Confine Verif.Gen.ChrootOps.
 
 (* (d) whatever raw strings an operation of the current source is given, under whatever absolute root string, the
    inner filesystem is handed only cleaned paths that are the cleaned root or start with cleaned-root ++ "/" *)
@@ -73,8 +73,78 @@ Proof. vm_compute. reflexivity. Qed.
 Example ex_injective_naming : injective encode.
 Proof. exact encode_injective. Qed.
 
+(* ---- NESTED wrappers: NewChrootFs(NewChrootFs(inner, lower0), upper0), every operation of the current table ---- *)
+(* the lower wrapper never refuses what the upper one lets through; it re-anchors it under its own root *)
+Theorem b_nested_spec o cwd lower0 upper0 args : go_is_abs cwd = true -> In o ops ->
+  b_nested_op cwd lower0 upper0 o args
+  = option_map (map (b_join cwd (new_chroot cwd lower0))) (b_chroot_op cwd upper0 o args).
+Proof.
+  intros Hc Hin. unfold b_nested_op, b_chroot_op, b_run_op.
+  exact (b_nested_args_spec cwd _ _ (new_chroot_abs cwd lower0 Hc) (new_chroot_abs cwd upper0 Hc) (op_args o) args
+           (op_checked o Hin)).
+Qed.
+
+(* whatever the upper root spells (absolute with surplus "..", relative, unclean, "/") and whatever the arguments spell,
+   the innermost filesystem is handed cleaned paths under the LOWER root - and under lower-root/Clean(upper-root) *)
+Theorem b_nested_confined o cwd lower0 upper0 args ps : go_is_abs cwd = true -> In o ops ->
+  b_nested_op cwd lower0 upper0 o args = Some ps ->
+  Forall (fun p => go_clean p = p /\ b_under (go_clean (new_chroot cwd lower0)) p /\
+                   b_under (b_join cwd (new_chroot cwd lower0) (go_clean (new_chroot cwd upper0))) p) ps.
+Proof.
+  intros Hc Hin Hr. unfold b_nested_op in Hr.
+  destruct (b_chroot_op cwd upper0 o args) as [ps1|] eqn:H1; [|discriminate].
+  exact (b_nested_args_confined cwd _ _ (new_chroot_abs cwd lower0 Hc) (new_chroot_abs cwd upper0 Hc) (op_args o) args ps1 ps
+           (op_checked o Hin) H1 Hr).
+Qed.
+
+Theorem b_nested_no_dotdot_never_refused o cwd lower0 upper0 args : go_is_abs cwd = true -> In o ops ->
+  List.length args = List.length (op_args o) -> Forall no_dotdot args ->
+  b_nested_op cwd lower0 upper0 o args
+  = Some (map (b_join cwd (new_chroot cwd lower0)) (map (b_join cwd (new_chroot cwd upper0)) args)).
+Proof.
+  intros Hc Hin Hl Hn. rewrite (b_nested_spec o cwd lower0 upper0 args Hc Hin).
+  rewrite (b_chroot_no_dotdot_never_refused o cwd upper0 args Hc Hin Hl Hn). reflexivity.
+Qed.
+
+Example ex_nested_surplus_dotdot :
+  option_map (fun o => b_nested_op (s "/w") (s "/work/proj") (s "/../shared") o [s "new.sysl"]) (find_op' "Create")
+  = Some (Some [s "/work/proj/shared/new.sysl"]).
+Proof. vm_compute. reflexivity. Qed.
+Example ex_nested_surplus_dotdot2 :
+  option_map (fun o => b_nested_op (s "/w") (s "/work/./proj/") (s "/a/../../x") o [s "a"; s "../x/./b//"]) (find_op' "Rename")
+  = Some (Some [s "/work/proj/x/a"; s "/work/proj/x/b"]).
+Proof. vm_compute. reflexivity. Qed.
+Example ex_nested_upper_is_fs_root :
+  option_map (fun o => b_nested_op (s "/w") (s "/work/proj") (s "/") o [s "../../etc/passwd"]) (find_op' "Open")
+  = Some (Some [s "/work/proj/etc/passwd"]).
+Proof. vm_compute. reflexivity. Qed.
+Example ex_nested_relative_upper :
+  option_map (fun o => b_nested_op (s "/w/d") (s "/work/proj") (s "../tmpl") o [s "t.sysl"]) (find_op' "Stat")
+  = Some (Some [s "/work/proj/w/tmpl/t.sysl"]).
+Proof. vm_compute. reflexivity. Qed.
+Example ex_nested_upper_refuses :
+  option_map (fun o => b_nested_op (s "/w") (s "/work/proj") (s "/../shared") o [s "../x"]) (find_op' "Remove") = Some None.
+Proof. vm_compute. reflexivity. Qed.
+
+(* ---- letter case (tests by computation; the theorem is NestedProps.allowed_is_case_sensitive) ---- *)
+Example ex_case_sibling_refused :
+  option_map (fun o => b_chroot_op (s "/w") (s "/work/Billing") o [s "../billing/secret.sysl"]) (find_op' "Open") = Some None /\
+  option_map (fun o => b_chroot_op (s "/w") (s "/work/Billing") o [s "../BILLING/x"]) (find_op' "Stat") = Some None /\
+  option_map (fun o => b_chroot_op (s "/w") (s "/work/Billing") o [s "../Billing/secret.sysl"]) (find_op' "Open")
+  = Some (Some [s "/work/Billing/secret.sysl"]).
+Proof. vm_compute. repeat split. Qed.
+Example ex_case_variant_hypotheses :
+  let P := [s "work"; s "Billing"; s "x"] in let Q := [s "work"; s "billing"; s "x"] in
+  names P /\ names Q /\ case_variant_at 6 (render P) (render Q) /\ 6 < List.length (go_clean (s "/work/./Billing/")) /\
+  open_allowed (s "/work/./Billing/") (render P) = true /\ open_allowed (s "/work/./Billing/") (render Q) = false.
+Proof.
+  cbv zeta. split; [repeat constructor|]. split; [repeat constructor|]. split.
+  - exists (s "/work/"), "B"%char, "b"%char, (s "illing/x"). repeat split. discriminate.
+  - vm_compute. repeat split. repeat constructor.
+Qed.
+
 (* ---- import statements and the module argument on raw strings (Chroot/ImportBytes.v) ---- *)
-Require Import Verif.Chroot.Import Verif.Chroot.ImportBytes Verif.Gen.ImportOrder.
+Require Import Verif.Chroot.Import Verif.Chroot.ImportBytes Verif.Chroot.Configure Verif.Chroot.ConfigureProps Verif.Gen.ImportOrder.
 
 Lemma b_open_confined cwd root0 name p : go_is_abs cwd = true ->
   b_open ops cwd root0 name = Some p -> go_clean p = p /\ b_under (go_clean (new_chroot cwd root0)) p.
@@ -229,3 +299,53 @@ Proof. vm_compute. repeat split. Qed.
 Example ex_unguarded_goes_to_retriever :
   b_import_read AfterJoin true Unguarded ops (s "/w") (s "/r/s") (s "sub.folder/one/main.sysl") (s "two/dep") = ToRetriever.
 Proof. vm_compute. reflexivity. Qed.
+
+(* ---- imports through nested wrappers (the loader wraps a filesystem that is already a ChrootFs) ---- *)
+Lemma b_nested_open_is_op cwd lower0 upper0 name p :
+  b_nested_open ops cwd lower0 upper0 name = Some p ->
+  exists o, In o ops /\ b_nested_op cwd lower0 upper0 o [name] = Some [p].
+Proof.
+  unfold b_nested_open, b_open. destruct (find_op "Open" ops) as [o|] eqn:Ho; [|discriminate].
+  destruct (b_chroot_op cwd upper0 o [name]) as [[|p1 [|? ?]]|] eqn:H1; try discriminate.
+  destruct (b_chroot_op cwd lower0 o [p1]) as [[|q [|? ?]]|] eqn:H2; try discriminate.
+  intros [= <-]. exists o. split; [exact (find_op_in _ _ Ho)|]. unfold b_nested_op. rewrite H1. exact H2.
+Qed.
+
+(* whatever the module argument / the import statement spells and whatever the project root spells (surplus "..",
+   relative, unclean, "/"), the file the reader opens lies under the root of the filesystem the loader was given *)
+Theorem b_nested_read_confined g cwd lower0 upper0 name p : go_is_abs cwd = true ->
+  b_nested_read g ops cwd lower0 upper0 name = ToFs (Some p) ->
+  go_clean p = p /\ b_under (go_clean (new_chroot cwd lower0)) p /\
+  b_under (b_join cwd (new_chroot cwd lower0) (go_clean (new_chroot cwd upper0))) p.
+Proof.
+  intros Hc. unfold b_nested_read. destruct (reader_is_remote _); [discriminate|]. intros [= H].
+  destruct (b_nested_open_is_op cwd lower0 upper0 _ p H) as (o & Hin & Hr).
+  pose proof (b_nested_confined o cwd lower0 upper0 _ _ Hc Hin Hr) as HF. inversion HF; assumption.
+Qed.
+
+Example ex_nested_import :
+  b_nested_read reader_name_guard ops (s "/w") (s "/work/proj") (s "/../shared")
+                (import_local_name_at listener_remote_test listener_test_only_base_dot (go_dir (module_name (s "lib/main"))) (s "../x"))
+  = ToFs (Some (s "/work/proj/shared/x.sysl")).
+Proof. vm_compute. reflexivity. Qed.
+
+(* ---- loader.LoadSyslModule whatever ConfigureProject decides (root argument, marker found above the module, the
+   module's own directory): every file the reader opens lies under the root that was put in force ---- *)
+Theorem cfg_read_confined t od g ex cwd root module otext r m found p : go_is_abs cwd = true ->
+  configure ex cwd root module = Cfg r m found ->
+  cfg_read t od g ops ex cwd root module otext = Some (ToFs (Some p)) ->
+  go_clean p = p /\ b_under (go_clean (new_chroot cwd r)) p.
+Proof.
+  intros Hc Hcfg. unfold cfg_read. rewrite Hcfg. intros [= H]. destruct otext as [tx|].
+  - exact (b_import_read_confined t od g cwd r m tx p Hc H).
+  - unfold b_module_read, b_read in H. destruct (reader_is_remote _); [discriminate|]. injection H as H.
+    exact (b_open_confined cwd r _ p Hc H).
+Qed.
+
+Example ex_configure_marker :
+  configure [s "/r/s/a/.git"; s "/r/.sysl"] (s "/w") [] (s "/r/s/a/./b/../main.sysl") = Cfg (s "/r") (s "s/a/main.sysl") true /\
+  configure [s "/r/s/.git"] (s "/w") [] (s "/r/s/a/b/main") = Cfg (s "/r/s") (s "a/b/main") true /\
+  configure [] (s "/w") [] (s "/r/s/a/b/main") = Cfg (s "/r/s/a/b") (s "main") false /\
+  cfg_read listener_remote_test listener_test_only_base_dot reader_name_guard ops [s "/r/s/.git"] (s "/w") [] (s "/r/s/a/b/main") (Some (s "../../../x")) = Some (ToFs None) /\
+  cfg_read listener_remote_test listener_test_only_base_dot reader_name_guard ops [s "/r/s/.git"] (s "/w") [] (s "/r/s/a/b/main") (Some (s "../../x")) = Some (ToFs (Some (s "/r/s/x.sysl"))).
+Proof. vm_compute. repeat split. Qed.
